@@ -18,6 +18,8 @@ def has_value(k):
 
 
 def register(reg):
+  for u in ('_Configuration.save_and_restore._saving_wrapper', '_Configuration._asdict', '_Configuration.load_from_file'):
+    reg.replayers[u] = replay_configuration
   reg.repo.module('openhtf.util.configuration')
   reg.shape('_Configuration', _declarations='dict[ref:Declaration]', _flag_values='dict[val]', _loaded_values='dict[val]',
             _flags='ref:object', _lock='ref:rlock')
@@ -240,3 +242,63 @@ def _kwargs(kinds):
     from pyvc.engine import VPyDict
     made['kwargs'] = VPyDict({k: ex.make_input(st, 'kw_' + k, v) for k, v in kinds.items()})
   return setup
+
+
+# --------------------------------------------------------------------------------------------------------------------
+# replay on the real code: a fresh _Configuration instance driven through small histories
+# --------------------------------------------------------------------------------------------------------------------
+def _fresh_conf():
+  import sys
+  from openhtf.util import configuration
+  argv, sys.argv = sys.argv, sys.argv[:1]        # the constructor parses the command line for --config-value flags
+  try:
+    return configuration._Configuration()
+  finally:
+    sys.argv = argv
+
+
+def replay_configuration(model, ob):
+  import io, os, tempfile
+  out = {'scenarios': []}
+  bad = False
+
+  def note(what, want, got):
+    nonlocal bad
+    if want != got:
+      bad = True
+      out['scenarios'].append({'history': what, 'prescribed': repr(want), 'actual': repr(got)})
+  try:
+    # save_and_restore restores what was loaded when the wrapped function was CALLED
+    conf = _fresh_conf()
+    conf.declare('a', default_value=0)
+    conf.load(a=1)
+
+    @conf.save_and_restore
+    def body():
+      conf.load(a=3)
+      return conf['a']
+    conf.load(a=2)
+    inside = body()
+    note('declare a; load a=1; decorate; load a=2; call (loads a=3)', (3, 2), (inside, conf['a']))
+    # _asdict agrees with lookups: flag values win over loaded values
+    conf = _fresh_conf()
+    conf.declare('k', default_value='d')
+    conf.load(k='loaded')
+    conf._flag_values['k'] = 'flag'
+    note('declare k; load k=loaded; flag k=flag', (conf['k'], conf['k']), (conf['k'], conf._asdict().get('k')))
+    # load_from_file forwards _override
+    conf = _fresh_conf()
+    conf.declare('f', default_value=0)
+    conf.load(f=1)
+    with tempfile.NamedTemporaryFile('w', suffix='.yaml', delete=False) as fh:
+      fh.write('f: 9\n')
+    try:
+      with open(fh.name) as yf:
+        conf.load_from_file(yf, _override=False)
+    finally:
+      os.unlink(fh.name)
+    note('declare f; load f=1; load_from_file({f: 9}, _override=False)', 1, conf['f'])
+  except Exception as e:   # pylint: disable=broad-except
+    out['harness_error'] = repr(e)
+  out['reproduced'] = bad
+  return out
